@@ -383,6 +383,8 @@ def keystore_locks(work, harness, procs=3):
     if p.returncode != 0:
         raise Inconclusive('locks-measure failed: ' + p.stderr[-2000:])
     programs = json.loads(p.stdout.strip().splitlines()[-1])['programs']
+    if not programs or any(len(v) == 0 for v in programs.values()):
+        raise Inconclusive('key-store hooks did not fire for every operation (build tag verif missing?): %s' % programs)
     pdef = '[' + ', '.join('%s |-> <<%s>>' % (k, ', '.join('"%s"' % x for x in v)) for k, v in sorted(programs.items())) + ']'
     mc_wrapper(work, 'MCLocks', 'KeyStoreLocks', dict(ProgramsC=pdef, ProcsC='1..%d' % procs))
     write_raw_cfg(os.path.join(work, 'locks.cfg'), ['SPECIFICATION Spec', 'VIEW StateView', 'CONSTANTS', '  Programs <- ProgramsC', '  Procs <- ProcsC',
